@@ -1,6 +1,7 @@
 import SimVerif.Driver.Nms
 import SimVerif.Driver.Constr
 import SimVerif.Driver.Vote
+import SimVerif.Driver.Feat
 open SimVerif SimVerif.Wire SimVerif.Driver
 
 structure DState where
@@ -13,6 +14,7 @@ def step (st : DState) (line : String) : DState × String :=
   match req with
   | "case" :: _ => ({}, "C")
   | "nms" :: args => (st, NmsD.handle args impl)
+  | "feat" :: args => (st, FeatD.handle args impl)
   | "vote" :: args => (st, VoteD.handle args impl)
   | "constr" :: args => let (s, r) := ConstrD.handle st.constr args impl; ({ st with constr := s }, r)
   | _ => (st, bad "family")
